@@ -166,3 +166,84 @@ def c16_mark_as_failed_step(ctx, v):
             seen += 1
         v.covers_total += 1
         v.covers_sat += 1 if seen else 0
+
+
+def c16_picture_no_duplicates(ctx, v):
+    """BlockchainSyncState::build_peer_block_picture for one peer whose fetch queue holds 2..=3
+    entries in ANY order (the queue is only sorted inside the selection round; announcements are
+    appended) without duplicates, and one announced (id, hash) pair — possibly equal to a queued
+    entry at any position: afterwards the queue still holds no (id, hash) pair twice, every
+    earlier entry is still there, and an announced block the node lacks is queued.  (The two
+    map clean-ups at the end of the function are cut; the announcement list is one entry, so the
+    sort is the identity.)"""
+    from .models import value_eq
+    body = ctx.body(r"blockchain_sync_state::<impl at [^>]*>::build_peer_block_picture$")
+    ok = 0
+    for n in ((2, 3) if ctx.tier == "quick" else (2, 3, 4)):
+        ex = ctx.executor(loop_bound=n + 4, inline="auto", max_paths=6000, no_inline=[r"to_hex", r"fmt"])
+        ex.pure = [r".*"]
+        ex.stop_calls = [r"(?:AHashMap|HashMap)::<u64, VecDeque<.*>::retain::"]
+        entries, ids, hs = [], [], []
+        for i in range(n):
+            bid = ex.fresh_value("u64", "q%d.id" % i)
+            h = ex.fresh_value("[u8; 32]", "q%d.hash" % i)
+            entries.append(ctx.mk_struct(ex, "BlockData", "q%d" % i, block_hash=h, block_id=bid, status=ex.fresh_value("BlockStatus", "q%d.status" % i), retry_count=ex.fresh_value("u32", "q%d.retry" % i)))
+            ids.append(bid); hs.append(h)
+        peer = ex.fresh_value("u64", "peer_index")
+        a_id = ex.fresh_value("u64", "announced.id")
+        a_h = ex.fresh_value("[u8; 32]", "announced.hash")
+        ann = S.Seq([S.Agg("tuple", "(u64, [u8; 32])", [a_id, a_h])], "(u64, [u8; 32])")
+        btf = S.MapV("blocks_to_fetch", [[z3.BoolVal(True), peer, S.Seq(entries, "BlockData")]])
+        rbp = S.MapV("received_block_picture", [[z3.BoolVal(True), ex.copy_value(peer), ann]])
+        state = ctx.mk_struct(ex, "BlockchainSyncState", "sync", blocks_to_fetch=btf, received_block_picture=rbp)
+        have = z3.Bool("node_already_has_announced_block")
+
+        def hook(ex_, st, callee, args, dty, have=have):
+            if re.search(r"(?:AHashMap|HashMap)::<\[u8; 32\], Block[^>]*>::contains_key", callee):
+                return have
+            return None
+        ex.on_call = hook
+        same = lambda i, j: z3.And(ids[i].bv == ids[j].bv, value_eq(ex, hs[i], hs[j]))
+        st = S.State()
+        st.pc.extend([L.enum_in_range(e.fields[ctx.field_index("BlockData", "status")], 4) for e in entries] + [z3.Not(same(i, j)) for i in range(n) for j in range(i)])
+        outs = ex.run(body, [S.Ref(S.Cell(state), (), True), S.Ref(S.Cell(S.Opaque("blockchain", "Blockchain")))], st)
+        v.paths += len(outs)
+        for o in outs:
+            if o.kind in ("unsupported", "unwound", "path-limit"):
+                return v.undecided("n=%d %s %s" % (n, o.kind, o.info))
+            if o.kind == "panic":
+                L.report_panic(v, ex, o, "n=%d: build_peer_block_picture panics: %s" % (n, o.info))
+                continue
+            if o.kind not in ("stopped", "return"):
+                continue
+            post = ex.deref_value(o.state.frames[0].locals["_1"].v)
+            pmap = post.fields[ctx.field_index("BlockchainSyncState", "blocks_to_fetch")]
+            if not pmap.entries:
+                return v.undecided("queue map lost its entry")
+            cell = pmap.entries[0][2]
+            pdeq = cell.v if isinstance(cell, S.Cell) else cell
+            if not isinstance(pdeq, S.Seq):
+                return v.undecided("queue is not a concrete-length sequence")
+            pid = [e.fields[ctx.field_index("BlockData", "block_id")] for e in pdeq.items]
+            ph = [e.fields[ctx.field_index("BlockData", "block_hash")] for e in pdeq.items]
+            m_ = len(pdeq.items)
+            dup = z3.Or(*[z3.And(pid[i].bv == pid[j].bv, value_eq(ex, ph[i], ph[j])) for i in range(m_) for j in range(i)]) if m_ > 1 else z3.BoolVal(False)
+            r, m = ex.model_for(o.pc, dup)
+            v.queries += 1
+            bad = False
+            if r == z3.sat:
+                L.fail_structural(v, o, "n=%d: after build_peer_block_picture the peer's fetch queue holds the same (id, hash) twice (%d entries): the block would be requested twice" % (n, m_))
+                bad = True
+            present = lambda bid, h: z3.Or(*[z3.And(pid[k].bv == bid.bv, value_eq(ex, ph[k], h)) for k in range(m_)]) if m_ else z3.BoolVal(False)
+            for i in range(n):
+                v.queries += 1
+                if ex.feasible(o.pc, z3.Not(present(ids[i], hs[i]))):
+                    L.fail_structural(v, o, "n=%d: a queued entry disappeared from the fetch queue" % n)
+                    bad = True
+            v.queries += 1
+            if ex.feasible(o.pc, z3.And(z3.Not(have), z3.Not(present(a_id, a_h)))):
+                L.fail_structural(v, o, "n=%d: an announced block the node lacks is not in the peer's fetch queue afterwards" % n)
+                bad = True
+            ok += 0 if bad else 1
+    v.covers_total += 1
+    v.covers_sat += 1 if ok else 0
